@@ -129,6 +129,50 @@ def one_load(task):
         shutil.rmtree(tmp, ignore_errors=True)
 
 
+def cube_cut(task):
+    """spec -> code: one cube file whose data block is cut into lines as the model's universe says (MC_CubeData)."""
+    shape, cut, seed = task
+    from iodata import api
+    rng = random.Random(seed)
+    n = shape[0] * shape[1] * shape[2]
+    # word k of the stream carries a distinct tagged number; varying widths and separators (the block is read free-format)
+    vals = [float(f"{(-1) ** k * (1.0 + 0.001 * k) * 10.0 ** (k % 5 - 2):.5E}") for k in range(1, n + 1)]
+    style = rng.randrange(3)
+    def word(v):
+        return f"{v:13.5E}" if style == 0 else (f" {v:.5E}" if style == 1 else f"   {v!r}")
+    lines = ["cube cut " + "-".join(str(x) for x in cut), "OUTER LOOP: X, MIDDLE LOOP: Y, INNER LOOP: Z",
+             f"{1:5d}{-1.25:12.6f}{0.5:12.6f}{2.125:12.6f}"]
+    axes = [[0.5, 0.0, 0.01], [0.0, 0.625, 0.0], [0.02, 0.0, 0.75]]
+    for k in range(3):
+        lines.append(f"{shape[k]:5d}" + "".join(f"{v:12.6f}" for v in axes[k]))
+    lines.append(f"{8:5d}{8.0:12.6f}{0.0:12.6f}{0.25:12.6f}{-0.5:12.6f}")
+    pos = 0
+    for ln in cut:
+        lines.append("".join(word(v) for v in vals[pos:pos + ln]))
+        pos += ln
+    ev = {"op": "CubeCut", "shape": list(shape), "lines": list(cut), "style": style, "load": "ok", "loaded_shape": [], "cells": []}
+    tmp = tempfile.mkdtemp(prefix="c03_")
+    try:
+        path = os.path.join(tmp, "cut.cube")
+        with open(path, "w") as fh:
+            fh.write("\n".join(lines) + "\n")
+        with warnings.catch_warnings():
+            warnings.simplefilter("ignore")
+            try:
+                obj = api.load_one(path)
+            except Exception as exc:  # noqa: BLE001
+                ev["load"] = f"{type(exc).__name__}:{str(exc.__cause__ or exc)[:90]}".replace(tmp, "")
+                return ev
+        data = np.asarray(obj.cube.data)
+        ev["loaded_shape"] = [int(x) for x in data.shape]
+        tag = {v: k for k, v in enumerate(vals, 1)}
+        for cell in np.ndindex(*data.shape):
+            ev["cells"].append({"cell": [int(c) for c in cell], "word": tag.get(float(data[cell]), 0)})
+        return ev
+    finally:
+        shutil.rmtree(tmp, ignore_errors=True)
+
+
 # records whose numeric fields are driven to their fill values, and the format each belongs to
 FILL_RECORDS = {"sdf_atom": ("sdf", ["x", "y", "z"]), "pdb_atom": ("pdb", ["x", "y", "z", "occ", "b", "resseq"]),
                 "gro_atom": ("gromacs", ["x", "y", "z", "vx", "vy", "vz", "resnum"]), "crd_atom": ("charmm", ["x", "y", "z", "weight", "resno"]),
@@ -249,6 +293,25 @@ def check(run: Run):
         if r != 1:
             key, what = describe(e)
             run.violation(key, what, {"event": e})
+    # cube data block: the reader's word cursor (spec/CubeData.tla, MC_CubeData) over every cut of every stream of the bounded universe
+    cfgc = "MC_CubeData_thorough.cfg" if run.thorough() else "MC_CubeData.cfg"
+    cases_file = os.path.join(run.work, "cube_cases.json")
+    run.add_model(run_tlc(run, "MC_CubeData", cfgc, workers=8, timeout=600, tag=cfgc[:-4], env={"CASES_FILE": cases_file}))
+    with open(cases_file) as fh:
+        cases = json.load(fh)["cases"]
+    cev = pmap(cube_cut, [(c["shape"], c["lines"], rng.randint(0, 10**9)) for c in cases], chunksize=16)
+    creached = validate_traces(run, "Trace_CubeData", [[e] for e in cev], chunk=1000)
+    run.notes["cube_cuts_from_model"] = len(cases)
+    for e, r in zip(cev, creached):
+        run.count()
+        run.distinct("cubecut:" + json.dumps([e["shape"], e["lines"]]))
+        if r != 1:
+            if e["load"] != "ok":
+                what = f"cube file with data lines of {e['lines']} numbers (shape {e['shape']}) not loaded: {e['load']}"
+            else:
+                bad = [c for c in e["cells"] if c["word"] != (c["cell"][0] * e["shape"][1] + c["cell"][1]) * e["shape"][2] + c["cell"][2] + 1][:3]
+                what = f"cube data misplaced: shape {e['shape']} loaded as {e['loaded_shape']}, lines {e['lines']}, cells {bad}"
+            run.violation(f"cube-cut shape={e['shape']} lines={e['lines']}"[:100], what, {"event": e})
     # QCSchema molecule documents: every key subset class -> where the loader puts each value (spec/QCSchema.tla)
     from .. import qcdoc
     cfgq = "MC_QCSchema_thorough.cfg" if run.thorough() else "MC_QCSchema_quick.cfg"
